@@ -19,12 +19,12 @@ RULE = ('pairs of magnitudes with/without absolute uncertainty, of either sign, 
         'operand; distinct by (op, signs, shapes, which side is uncertain, units)')
 SHARDS = {'quick': 16, 'thorough': 16}
 MIN_NONTRIVIAL = {'quick': 5000, 'thorough': 120000}
-REQUIRED_CLASSES = ['mag:add', 'mag:sub', 'mag:mul', 'mag:truediv', 'mag:pow', 'mag:neg', 'exact-partner-negative', 'exact-partner-left',
+REQUIRED_CLASSES = ['cancelling-units-collapse', 'quantity-ops-same-dimension-other-unit', 'mag:add', 'mag:sub', 'mag:mul', 'mag:truediv', 'mag:pow', 'mag:neg', 'exact-partner-negative', 'exact-partner-left',
                     'both-uncertain-positive', 'both-exact', 'array', 'scalar', 'negative-exponent', 'quantity-conversion',
                     'quantity-mixed-unit-sum', 'quantity-ops', 'repo-tests-under-contracts', 'value-query-then-reuse', 'sum-evaluated-twice']
 REQUIRED_MONITORS = ['contract:Magnitude._add', 'contract:Magnitude._sub', 'contract:Magnitude._mul', 'contract:Magnitude._truediv',
                      'contract:Magnitude.__pow__', 'contract:Magnitude.__neg__', 'contract:UnitType.convert',
-                     'contract:UnitType.convert:linear-with-uncertainty', 'conversion_scaling_compares', 'mixed_sum_compares', 'value_query_uncertainty_compares',
+                     'contract:UnitType.convert:linear-with-uncertainty', 'conversion_scaling_compares', 'collapse_scaling_compares', 'quantity_result_relative_uncertainty_compares', 'mixed_sum_compares', 'value_query_uncertainty_compares',
                      'repo_tests_contract_evaluations']
 ASSUMPTIONS = ['inputs carry non-negative absolute uncertainties (constructed with abse)',
                'k / uncertain and the power formula are only held to non-negativity of the result',
@@ -38,6 +38,16 @@ FAM = {'length': ['m', 'km', 'cm', 'in', 'mm', 'au'], 'time': ['s', 'ms', 'min',
        'speed': ['m/s', 'km/h', 'mph'], 'mass': ['g', 'kg', 'lb', 'u']}
 UNIT_STRUCT = {'kg*m2/s2': ['/', ['*', ['a', 'k', 'g', 1, 1], ['a', '', 'm', 2, 1]], ['a', '', 's', 2, 1]],
                'm/s': ['/', ['a', '', 'm', 1, 1], ['a', '', 's', 1, 1]], 'km/h': ['/', ['a', 'k', 'm', 1, 1], ['a', '', 'h', 1, 1]]}
+
+
+FAMILY_OF = {u: fam for fam, us in FAM.items() for u in us}
+
+
+def safe(x):
+    try:
+        return repr(x)[:200]
+    except Exception as e:
+        return '<repr raised %s>' % type(e).__name__
 
 
 def setup():
@@ -102,8 +112,13 @@ def cases(rng, tier, shard, nshards, ctx):
             ua, ub = rng.choice(FAM[fam]), rng.choice(FAM[fam])
             xa, xb = gv(rng, arr), gv(rng, arr and rng.random() < 0.5)
             yield dict(t='qsum', ua=ua, ub=ub, xa=xa, xb=xb, ea=ge(rng, xa), eb=ge(rng, xb) if rng.random() < 0.8 else None, sign=rng.choice([1, -1]))
+        elif r < 0.89:
+            fam = rng.choice(list(FAM))
+            u, v = rng.sample(FAM[fam], 2)
+            x = gv(rng, arr)
+            yield dict(t='qcollapse', u=u, v=v, x=x, e=ge(rng, x), form=rng.choice(['div', 'neg', 'rev']))
         else:
-            fam = rng.choice(list(FAM)); fam2 = rng.choice(list(FAM))
+            fam = rng.choice(list(FAM)); fam2 = fam if rng.random() < 0.5 else rng.choice(list(FAM))
             xa, xb = gv(rng, arr), gv(rng, False)
             yield dict(t='qops', ua=rng.choice(FAM[fam]), ub=rng.choice(FAM[fam2]), xa=xa, xb=xb, ea=ge(rng, xa), eb=ge(rng, xb) if rng.random() < 0.5 else None,
                        op=rng.choice(['mul', 'truediv', 'pow', 'neg', 'rmul', 'rtruediv', 'mulnum', 'divnum']), k=rng.choice([-3.0, 2.0, -0.5, 4]))
@@ -254,6 +269,49 @@ def _run(case, ctx):
             e = res.abse()
             if e is not None and not bool(np.all(np.asarray(e, dtype=float) >= 0)) and np.all(np.isfinite(np.asarray(e, dtype=float))):
                 pass   # reported through the Magnitude contract below
+            # Quantity-level oracle on the finished result (after units that cancel have been folded into the number): relative
+            # uncertainties do not depend on the linear units of the operands, so they are compared directly
+            xa_l = case['xa'] if isinstance(case['xa'], list) else [case['xa']]
+            if op in ('mul', 'truediv', 'rmul', 'mulnum', 'divnum') and all(x != 0 for x in xa_l) and case['xb'] != 0:
+                rv, re_ = lst(res.value()), lst(res.abse())
+                if re_ is not None and len(re_) == 1 and len(rv) > 1:
+                    re_ = re_ * len(rv)
+                rel_a = [case['ea'] / abs(x) for x in xa_l]
+                rel_b = (case['eb'] / abs(case['xb'])) if (case['eb'] is not None and op in ('mul', 'truediv')) else 0.0
+                if re_ is not None and len(re_) == len(rv) == len(rel_a) and all(v != 0 and math.isfinite(v) for v in rv):
+                    mon['quantity_result_relative_uncertainty_compares'] = 1
+                    if FAMILY_OF.get(case['ua']) == FAMILY_OF.get(case['ub']) and op in ('mul', 'truediv') and case['ua'] != case['ub']:
+                        classes.append('quantity-ops-same-dimension-other-unit')
+                    rel_r = [e_ / abs(v) for e_, v in zip(re_, rv)]
+                    if rel_b == 0.0:
+                        if not all(close(r, ra, 1e-9) for r, ra in zip(rel_r, rel_a)):
+                            devs.append(dev('quantity-%s-by-exact-partner-changes-relative-uncertainty' % op,
+                                            dict(case=case, result_relative=rel_r, operand_relative=rel_a, result=safe(res))))
+                    elif all(x > 0 for x in xa_l) and case['xb'] > 0:
+                        if not all(r >= (ra + rel_b) * (1 - 1e-9) for r, ra in zip(rel_r, rel_a)):
+                            devs.append(dev('quantity-%s-below-first-order-uncertainty' % op,
+                                            dict(case=case, result_relative=rel_r, first_order=[ra + rel_b for ra in rel_a], result=safe(res))))
+        elif t == 'qcollapse':
+            # a quantity written in units that cancel (km/m, kJ/J, h*s-1) is folded into a pure number: value and absolute
+            # uncertainty are scaled by the same factor
+            classes += ['cancelling-units-collapse', 'array' if isinstance(case['x'], list) else 'scalar']
+            uncertain = True
+            u, v, x, e = case['u'], case['v'], case['x'], case['e']
+            expr = {'div': '%s/%s' % (u, v), 'neg': '%s*%s-1' % (u, v), 'rev': '%s-1*%s' % (v, u)}[case['form']]
+            if '/' in u or '*' in u or '/' in v or '*' in v:
+                expr = '(%s)/(%s)' % (u, v)
+            res = Q(list(x) if isinstance(x, list) else x, expr, abse=e)
+            f = F[u] / F[v]
+            mon['collapse_scaling_compares'] = 1
+            rv, re_ = lst(res.value()), lst(res.abse())
+            xs = x if isinstance(x, list) else [x]
+            if re_ is not None and len(re_) == 1 and len(rv) > 1:
+                re_ = re_ * len(rv)
+            if res.units() not in (None, '', '1'):
+                pass          # not folded: nothing to compare here (C06 is about the folding itself)
+            elif re_ is None or not all(close(o, x_ * f, 1e-9) for o, x_ in zip(rv, xs)) or not all(close(o, e * f, 1e-9) for o in re_):
+                devs.append(dev('cancelling-units-collapse-does-not-scale-uncertainty-with-value',
+                                dict(expr=expr, x=x, abse=e, observed_value=rv, observed_abse=re_, expected_value=[x_ * f for x_ in xs], expected_abse=e * f)))
     except Exception as e_:
         exc = e_
     for r in C.take_records():
